@@ -217,5 +217,6 @@ pub fn run(cfg: &Cfg, rep: &mut Report) {
 
   // thread part: terminating thread vs unsubscribing thread on finalize_threads (baton scheduler)
   let n = cfg.n(6_000, 600_000);
+  super::thr::systematic_families(cfg, rep, 0xC15A, &[10, 10, 10], &|_, _| {}, &|o, _| super::thr::finalize_oracle(o));
   super::thr::campaign(cfg, rep, "thr", n, 0xC15F, &mut |r: &mut Rng| super::thr::random_scen(r, 10), &|o, _| super::thr::finalize_oracle(o));
 }
